@@ -15,6 +15,20 @@ CHECKS = {
         "when every % starts a valid escape, the result decodes to the same octets, kept escapes are upper-case and necessary, literal/"
         "escaped slashes are not exchanged, normalising is idempotent and invalid input yields \"\". Holds within the length bound only.",
    design="4 C12", technique="symbolic execution of go/ssa + SMT (bit-vectors), all inputs within a length bound"),
+ "C16": dict(
+   text="Bounded symbolic model checking of the real jsonpointer.Resolve/find/findIdx/findKey/unescape/splitFunc (plus net/url.PathUnescape, "
+        "strconv.ParseUint, strings.genericReplacer from SSA) against an RFC 6901 evaluator written in the harness: node identity must agree "
+        "and ill-formed or dangling pointers must error. Pointer bytes are fully symbolic (all 256 values) up to length 3 (quick) / 4 (thorough), "
+        "and additionally every valid base pointer of 6 document skeletons, in both spellings, carries a window of 1..2 (1..3) symbolic bytes at every "
+        "position; member names are symbolic. Holds within those bounds only; the tilde-leniency defect is carried as a known finding.",
+   design="4 C16", technique="symbolic execution of go/ssa + SMT, differential against an RFC 6901 reference evaluator"),
+ "C06": dict(
+   text="Bounded symbolic model checking of the real uri.*Encoder/*Decoder, cookie escaping, net/url escaping, url.Values.Encode/ParseQuery, "
+        "http.Header and cookie code, driven exactly as generated code drives them. All 48 (location, style, explode, shape) entries are classified by "
+        "the real validateParamStyle executed from SSA and every admitted one is checked for: no panic, decode(encode(v)) is v or an error, core-domain "
+        "values always delivered, delimiter-bearing values refused, wire text equal to a reference written from the OpenAPI 3.0.3 style table; values are "
+        "symbolic bytes (all 256 values) within small stated length/item bounds. Two empty-collection defects are carried as known findings.",
+   design="4 C06", technique="symbolic execution of go/ssa + SMT, round-trip and reference-serializer assertions over a completely enumerated style table"),
 }
 
 NA = {
